@@ -576,11 +576,13 @@ pub fn diff_expected(e: &Expected, c: &Cols, what: &str, max: usize) -> Diff {
 				for (i, (want, got)) in col.iter().zip(vals.iter()).enumerate() {
 					if let Some(w) = want {
 						if w != got {
-							// is the wanted value sitting in another row of the same column? then it is a row misalignment
-							let elsewhere = vals.iter().position(|x| x == w);
-							let msg = format!("{}: {}[{}] = {:#x} want {:#x}{}", what, path, i, got, w, elsewhere.map_or(String::new(), |j| format!(" (wanted value found at row {})", j)));
-							if elsewhere.is_some() && w > &0xff {
-								d.structure.push(msg.clone());
+							let msg = format!("{}: {}[{}] = {:#x} want {:#x}", what, path, i, got, w);
+							// Misplacement (C04) is only claimed on strong evidence: the whole
+							// record observed at row i (every leaf of this character's pre/post, or
+							// of start/end) equals the record expected at another row j, or the
+							// record expected for another character at row i.
+							if let Some(m) = misplacement(e, c, path, i) {
+								d.structure.push(format!("{}: {} ({})", what, m, msg));
 							}
 							d.fields.push(msg);
 							break;
@@ -634,6 +636,53 @@ pub fn diff_expected(e: &Expected, c: &Cols, what: &str, max: usize) -> Diff {
 	d.fields.truncate(max);
 	d.structure.truncate(max);
 	d
+}
+
+/// Strong-evidence test for a misplaced record; see `diff_expected`.
+fn misplacement(e: &Expected, c: &Cols, path: &str, i: usize) -> Option<String> {
+	// record prefix = path up to and including ".pre." / ".post." / "start." / "end."
+	let prefix = if let Some(k) = path.find(".pre.") {
+		&path[..k + 5]
+	} else if let Some(k) = path.find(".post.") {
+		&path[..k + 6]
+	} else if path.starts_with("start.") {
+		"start."
+	} else if path.starts_with("end.") {
+		"end."
+	} else {
+		return None;
+	};
+	let leaves: Vec<&String> = e.leaves.keys().filter(|p| p.starts_with(prefix)).collect();
+	if leaves.len() < 2 {
+		return None;
+	}
+	let observed: Vec<Option<u64>> = leaves.iter().map(|p| c.leaves.get(*p).and_then(|x| x.1.get(i).copied())).collect();
+	if observed.iter().any(|x| x.is_none()) {
+		return None;
+	}
+	// another row of the same record
+	for j in 0..e.rows {
+		if j != i && leaves.iter().zip(observed.iter()).all(|(p, o)| e.leaves[*p].1.get(j).copied().flatten() == *o) {
+			return Some(format!("row misplacement: the record expected at row {} of {} was found at row {}", j, prefix.trim_end_matches('.'), i));
+		}
+	}
+	// the same row of another character's record of the same kind
+	if prefix.starts_with("ports.") {
+		let kind = if prefix.ends_with(".pre.") { ".pre." } else { ".post." };
+		let mut others: Vec<String> = e.leaves.keys().filter(|p| p.contains(kind) && !p.starts_with(prefix)).map(|p| p[..p.find(kind).unwrap() + kind.len()].to_string()).collect();
+		others.sort();
+		others.dedup();
+		for o in others {
+			let same = leaves.iter().zip(observed.iter()).all(|(p, ob)| {
+				let q = format!("{}{}", o, &p[prefix.len()..]);
+				e.leaves.get(&q).and_then(|x| x.1.get(i).copied().flatten()) == *ob
+			});
+			if same {
+				return Some(format!("port misplacement: the record expected for {} at row {} was found under {}", o.trim_end_matches('.'), i, prefix.trim_end_matches('.')));
+			}
+		}
+	}
+	None
 }
 
 /// Expected Arrow schema, rendered like `schema_lines`, from the spec tables.
